@@ -1350,7 +1350,7 @@ def _handle_graph_lookup_stage(in_collection, database, options):
 def _handle_group_stage(in_collection, unused_database, options):
     grouped_collection = []
     _id = options['_id']
-    if _id:
+    if _id is not None:
 
         def _key_getter(doc):
             try:
